@@ -260,6 +260,9 @@ class _Flattener:
             ast.fix_missing_locations(s)
         tail = _tail_only(ast.FunctionDef(name='_', args=callee.args, body=body, decorator_list=[], lineno=0)) if body else None
         retname = '__h%d_ret' % k
+        if not any(isinstance(x, ast.Return) for s_ in body for x in ast.walk(s_)):
+            # a procedure: its statements stand where the call stood (guards it raises from dominate what follows)
+            return pre + body, ast.Constant(value=None)
         if tail is not None:
             ret = tail[-1].value if tail[-1].value is not None else ast.Constant(value=None)
             return pre + tail[:-1], ret
@@ -513,17 +516,107 @@ def class_lookup(prog, ci, public=False):
             return m, (not static), f.attr
         if isinstance(f, ast.Name) and f.id.startswith('_') and f.id in ci.mod.functions:
             return ci.mod.functions[f.id], False, f.id
+        if isinstance(f, ast.Name) and f.id.startswith('_'):
+            g = imported_function(prog, ci.mod, f.id)
+            if g is not None:
+                return g, False, f.id
         return None
     return lookup
 
 
-def module_lookup(mi, public=False):
+def imported_function(prog, mi, name):
+    """a private helper `from .sibling import _helper` used in module mi: the FunctionDef in the sibling module (loaded on demand)"""
+    tgt = getattr(mi, 'imports', {}).get(name)
+    if not tgt or '.' not in tgt:
+        return None
+    modname, simple = tgt.rsplit('.', 1)
+    m = prog.modules.get(modname)
+    if m is None:
+        import os
+        for ext in ('.py', '.pyx'):
+            rel = modname.replace('.', os.sep) + ext
+            if os.path.exists(os.path.join(prog.root, rel)):
+                try:
+                    m = prog.load(rel)
+                except Exception:
+                    m = None
+                break
+    if m is None:
+        return None
+    return m.functions.get(simple)
+
+
+def module_lookup(mi, public=False, prog=None):
     def lookup(c):
         f = c.func
         if isinstance(f, ast.Name) and (f.id.startswith('_') or public) and f.id in mi.functions:
             return mi.functions[f.id], False, f.id
+        if prog is not None and isinstance(f, ast.Name) and f.id.startswith('_'):
+            g = imported_function(prog, mi, f.id)
+            if g is not None:
+                return g, False, f.id
         return None
     return lookup
+
+
+def append_helper_bodies(fn, lookup, depth=2):
+    """Copy of fn whose body is followed by the bodies of the private helpers it still calls (those flatten() could not expand in place, e.g.
+    because they return from inside a loop), parameters renamed to the plain-name arguments of the call.  For rules that look for the
+    presence of a construct anywhere in what the method executes, not for its position."""
+    new = copy.deepcopy(fn)
+    seen = set()
+    work = [(new, depth)]
+    extra = []
+    while work:
+        f, d = work.pop()
+        if d <= 0:
+            continue
+        for c in [c for c in ast.walk(f) if isinstance(c, ast.Call)]:
+            r = lookup(c)
+            if r is None:
+                continue
+            callee, skip_self, name = r
+            if name in seen or callee is fn:
+                continue
+            seen.add(name)
+            b = _bind(c, callee, skip_self)
+            ren = {p: a.id for p, a in (b or {}).items() if isinstance(a, ast.Name)}
+            body = [_Rename(ren).visit(copy.deepcopy(st)) for st in callee.body
+                    if not (isinstance(st, ast.Expr) and isinstance(st.value, ast.Constant))]
+            holder = ast.FunctionDef(name=name, args=callee.args, body=body, decorator_list=[], lineno=callee.lineno)
+            extra.extend(body)
+            work.append((holder, d - 1))
+    new.body = list(new.body) + extra
+    ast.fix_missing_locations(new)
+    return new
+
+
+def inline_trivial_properties(fn, prog, ci):
+    """Copy of fn in which a read of `self.p`, p a property over the MRO whose getter is just `return self._f`, reads `self._f`."""
+    triv = {}
+    for c in prog.mro(ci):
+        for pn, g in c.getters.items():
+            if pn in triv:
+                continue
+            body = [st for st in g.body if not (isinstance(st, ast.Expr) and isinstance(st.value, ast.Constant))]
+            if len(body) == 1 and isinstance(body[0], ast.Return) and isinstance(body[0].value, ast.Attribute) \
+                    and isinstance(body[0].value.value, ast.Name) and body[0].value.value.id == 'self':
+                triv[pn] = body[0].value.attr
+            else:
+                triv[pn] = None
+    triv = {k: v for k, v in triv.items() if v}
+    if not triv:
+        return fn
+
+    class T(ast.NodeTransformer):
+        def visit_Attribute(self, n):
+            self.generic_visit(n)
+            if isinstance(n.ctx, ast.Load) and isinstance(n.value, ast.Name) and n.value.id == 'self' and n.attr in triv:
+                return ast.copy_location(ast.Attribute(value=n.value, attr=triv[n.attr], ctx=ast.Load()), n)
+            return n
+    new = T().visit(copy.deepcopy(fn))
+    ast.fix_missing_locations(new)
+    return new
 
 
 def prep(fn, lookup=None, keep=(), depth=3):
